@@ -497,6 +497,81 @@ fn stack_cases(ctx: &Ctx, rep: &mut Report) {
     }
 }
 
+/// Widths around every power of two, one and two rows: everything that can be done at the
+/// right edge (the last cell filled, the cursor in the wrap-pending column), tab stops set
+/// and cleared there, edits, repeats, width changes by one - three operations deep.
+fn alpha_pow2(cfg: &Cfg) -> Vec<Op> {
+    use crate::ops::Cmd::*;
+    let w = cfg.cols as u32;
+    vec![
+        c(Seq(vec![Cup(Some(1), Some(w)), Text("x".into())])),
+        c(Tbc(None)),
+        c(Ctc(Some(2))),
+        c(Hts),
+        c(Ht),
+        c(Cbt(None)),
+        c(Cht(Some(3))),
+        c(Ich(None)),
+        c(Dch(None)),
+        c(Ech(Some(2))),
+        c(El(None)),
+        c(Rep(Some(2))),
+        t("ab"),
+        c(Cha(Some(w))),
+        c(Cub(Some(1))),
+        c(Tbc(Some(3))),
+        Op::resize(cfg.cols + 1, cfg.rows),
+        Op::resize(cfg.cols.max(2) - 1, cfg.rows),
+    ]
+}
+
+fn pow2_part<'a>(tier: Tier, sys: &'a Sys) -> Part<'a, Sys> {
+    let mut sizes: Vec<(usize, usize)> = vec![];
+    for k in 3..=tier.pick(10u32, 13) {
+        let b = 1usize << k;
+        for w in [b - 1, b, b + 1] {
+            sizes.push((w, 1));
+            if k <= 8 {
+                sizes.push((w, 2));
+            }
+        }
+    }
+    Part {
+        name: "widths-around-powers-of-two",
+        sys,
+        cfgs: cfgs(&sizes, &[Some(0)]),
+        alphabet: &alpha_pow2,
+        depth: 3,
+        seconds: tier.pick(20.0, 1800.0),
+        validated: false,
+        nontrivial: None,
+    }
+}
+
+/// long runs of text (every length up to twice the width) from every placement - region x
+/// origin mode x cursor row above / inside / below it x column, wrap-pending - also after a
+/// mode or charset switch in the same call: the layered alphabet of C04's realistic-screen
+/// sweep on a 20x6 screen, under the no-panic oracle with every accessor
+fn alpha_runs(cfg: &Cfg) -> Vec<Op> {
+    super::sweep::layered(super::sweep::wide_placements(cfg), super::sweep::wide_print_funcs(cfg))
+}
+
+fn runs_part<'a>(tier: Tier, sys: &'a Sys) -> Part<'a, Sys> {
+    Part {
+        name: "text-runs-from-every-placement",
+        sys,
+        cfgs: match tier {
+            Tier::Quick => cfgs(&[(20, 6)], &[None]),
+            Tier::Thorough => cfgs(&[(20, 6), (9, 4), (40, 10)], &[None, Some(0)]),
+        },
+        alphabet: &alpha_runs,
+        depth: 2,
+        seconds: tier.pick(20.0, 1800.0),
+        validated: false,
+        nontrivial: None,
+    }
+}
+
 fn make_sys(tier: Tier) -> Sys {
     let mut extreme = a_extreme();
     // sizes far from the tiny ones (the work is still what the call requests)
@@ -519,6 +594,8 @@ pub fn run(ctx: &Ctx) -> Report {
     run_part(ctx, &mut rep, &deep_part(ctx.tier, &plain));
     run_part(ctx, &mut rep, &modes_part(ctx.tier, &plain));
     run_part(ctx, &mut rep, &core_part(ctx.tier, &plain));
+    run_part(ctx, &mut rep, &pow2_part(ctx.tier, &plain));
+    run_part(ctx, &mut rep, &runs_part(ctx.tier, &plain));
     sweep(ctx, &mut rep);
     long_call_history(ctx, &mut rep);
     stack_cases(ctx, &mut rep);
@@ -547,6 +624,14 @@ pub fn replay(ctx: &Ctx, v: &Value) -> bool {
     if v["part"] == "origin-margins-save-deep" {
         let plain = Sys { extreme: vec![], extreme_depth: 0, second: vec![] };
         return replay_part(ctx, &modes_part(tier, &plain), v);
+    }
+    if v["part"] == "widths-around-powers-of-two" {
+        let plain = Sys { extreme: vec![], extreme_depth: 0, second: vec![] };
+        return replay_part(ctx, &pow2_part(tier, &plain), v);
+    }
+    if v["part"] == "text-runs-from-every-placement" {
+        let plain = Sys { extreme: vec![], extreme_depth: 0, second: vec![] };
+        return replay_part(ctx, &runs_part(tier, &plain), v);
     }
     if v["part"] == "save-alt-resize-core-deep" {
         let plain = Sys { extreme: vec![], extreme_depth: 0, second: vec![] };
